@@ -13,6 +13,7 @@ from ..core import (AnalysisError, short, unparse, iter_own, call_name, call_rec
                     is_self_attr, atomic_facts, parents, enclosing_stmt, enclosing_func,
                     const_value)
 from . import c09
+from .. import affine, symex
 
 ENC = 'pylatexenc.latexencode._unicode_to_latex_encoder'
 PART = 'pylatexenc.latexencode._partial_latex_encoder'
@@ -125,6 +126,8 @@ def rules(ctx, repo, m, meths):
                construct='main loop: first match wins')
 
     # ------------------------------------------------------------ R04b
+    _wh = [w_ for w_ in iter_own(u2l) if isinstance(w_, ast.While)]
+    wh0 = _wh[0] if len(_wh) == 1 else None
     # (i) skip-ascii helper: +1 on its true edge only
     csa = meths.get('_check_do_skip_ascii')
     if csa is not None:
@@ -150,26 +153,68 @@ def rules(ctx, repo, m, meths):
                '_apply_replacement does not append the replacement exactly once',
                construct='_apply_replacement: output')
     # (iii) each _apply_rule_* passes the consumed count of its kind and returns True after it
-    want = {'_apply_rule_dict': lambda t: t == '1',
-            '_apply_rule_regex': lambda t: t.replace(' ', '') in ('m.end()-m.start()',),
-            '_apply_rule_callable': lambda t: True}
-    for name, okfn in sorted(want.items()):
+    for name in ('_apply_rule_callable', '_apply_rule_dict', '_apply_rule_regex'):
         f = meths.get(name)
         if f is None:
             ctx.refuted('R04b', m, m.cls('UnicodeToLatexEncoder'), 'missing ' + name, construct=name)
             continue
+        pname = f.args.args[-1].arg            # the position record `p`
+        try:
+            cases = symex.sink_cases(f, lambda c: call_name(c) == '_apply_replacement')
+        except symex.TooManyPaths as e:
+            ctx.unknown('R04b', m, f, str(e), construct=name)
+            continue
+        why = None
+        if not cases:
+            why = 'never calls _apply_replacement'
+        for cs in cases:
+            a = cs.sub.args
+            if len(a) != 4:
+                why = 'calls _apply_replacement with %d arguments' % len(a)
+                break
+            repl, consumed = a[1], a[2]
+            if name == '_apply_rule_dict':
+                if not (isinstance(consumed, ast.Constant) and consumed.value == 1):
+                    why = 'a dict rule consumes %s, not 1 character' % short(consumed)
+                elif not (isinstance(repl, ast.Subscript) and unparse(repl.value) == f.args.args[1].arg):
+                    why = 'the replacement %s is not looked up in the rule dict' % short(repl)
+            elif name == '_apply_rule_regex':
+                ce = consumed
+                for _i in range(3):
+                    d_ = cs.env.get('#def', {}).get(ce.id) if isinstance(ce, ast.Name) else None
+                    if not isinstance(d_, ast.AST):
+                        break
+                    ce = d_
+                ok = isinstance(ce, ast.BinOp) and isinstance(ce.op, ast.Sub) and \
+                    isinstance(ce.left, ast.Call) and isinstance(ce.right, ast.Call) and \
+                    call_name(ce.left) == 'end' and call_name(ce.right) == 'start' and \
+                    not ce.left.args and not ce.right.args and \
+                    unparse(call_recv(ce.left)) == unparse(call_recv(ce.right))
+                if not ok:
+                    why = 'a regex rule consumes %s, not m.end() - m.start() of its match' % short(ce)
+                else:
+                    msym = unparse(call_recv(ce.left))
+                    mdef = cs.env.get('#def', {}).get(msym)
+                    if not (isinstance(mdef, ast.Call) and any(
+                            unparse(x) == pname + '.pos' for x in mdef.args)):
+                        why = 'the match object %s does not come from a match at %s.pos' % (msym, pname)
+            else:
+                di = symex.item_def(unparse(consumed), cs.env) if isinstance(consumed, ast.Name) else None
+                dr = symex.item_def(unparse(repl), cs.env) if isinstance(repl, ast.Name) else None
+                if not (di and dr and di[1] == 0 and dr[1] == 1 and di[3] is dr[3]):
+                    # res = rulecallable(s, pos); (consumed, repl) = res
+                    ok = False
+                    if di and dr and di[1] == 0 and dr[1] == 1 and unparse(di[3]) == unparse(dr[3]):
+                        ok = True
+                    if not ok:
+                        why = ('a callable rule must pass (consumed, replacement) = the two items of '
+                               'the callable\'s result; found consumed=%s replacement=%s'
+                               % (short(consumed), short(repl)))
+            if why:
+                break
         calls = [c for c in iter_own(f) if isinstance(c, ast.Call) and call_name(c) == '_apply_replacement']
-        ok = len(calls) == 1 and len(calls[0].args) == 4 and okfn(unparse(calls[0].args[2]))
-        if name == '_apply_rule_callable' and ok:
-            # consumed is the first element of the callable's result tuple
-            cons = unparse(calls[0].args[2])
-            tup = [s for s in iter_own(f) if isinstance(s, ast.Assign) and isinstance(s.targets[0], ast.Tuple)]
-            ok = bool(tup) and unparse(tup[0].targets[0].elts[0]) == cons and \
-                unparse(calls[0].args[1]) == unparse(tup[0].targets[0].elts[1])
-        if name == '_apply_rule_dict' and ok:
-            ok = unparse(calls[0].args[1]).startswith('ruledict[')
         # every _apply_replacement call is followed by `return True`; other returns are None/False
-        rets_ok = True
+        rets_ok = bool(calls)
         for c in calls:
             st = enclosing_stmt(c)
             blk = _block_of(st)
@@ -177,42 +222,80 @@ def rules(ctx, repo, m, meths):
             nxt = blk[i + 1] if i + 1 < len(blk) else None
             rets_ok = rets_ok and isinstance(nxt, ast.Return) and isinstance(nxt.value, ast.Constant) \
                 and nxt.value.value is True
-        ctx.decide('R04b', ok and rets_ok, m, f,
-                   'consumes %s and reports the match' % (unparse(calls[0].args[2]) if calls else '?'),
-                   '%s does not pass the consumed length of its rule kind to _apply_replacement '
-                   'and return True (found %s)' % (name, [short(c, 60) for c in calls]),
-                   construct=name)
+        if why is None and not rets_ok:
+            why = 'does not `return True` right after applying the replacement'
+        ctx.decide('R04b', why is None, m, f,
+                   'consumes %s and reports the match (%d structural case(s))'
+                   % (short(cases[0].sub.args[2]) if cases and len(cases[0].sub.args) == 4 else '?', len(cases)),
+                   '%s: %s: the position advances by a length other than what the rule matched'
+                   % (name, why), construct=name)
     # (iv) fallback arms: +1 each
     if fors:
         els = fors[0].orelse
-        advs = [s for s in ast.walk(ast.Module(body=els, type_ignores=[]))
-                if isinstance(s, ast.AugAssign) and unparse(s.target).endswith('.pos')]
-        ifs = [s for s in els if isinstance(s, ast.If)]
-        ok = len(ifs) == 1 and len(advs) == 2 and all(unparse(a.value) == '1' for a in advs) and \
-            any(a in ifs[0].body for a in advs) and any(a in ifs[0].orelse for a in advs)
-        ctx.decide('R04b', ok, m, ifs[0] if ifs else fors[0],
-                   'both fallback arms (copy / unknown policy) advance by exactly 1',
-                   'a fallback arm does not advance by exactly one character',
-                   construct='fallback arms: advance')
-        # pass-through arm copies the character itself; unknown arm appends the policy result
-        if ifs:
-            cp = [s for s in ifs[0].body if isinstance(s, ast.AugAssign) and unparse(s.target).endswith('.latex')]
-            un = [s for s in ifs[0].orelse if isinstance(s, ast.AugAssign) and unparse(s.target).endswith('.latex')]
-            chdef = [s for s in els if isinstance(s, ast.Assign) and unparse(s.value).startswith('s[')]
-            chname = unparse(chdef[0].targets[0]) if chdef else 'ch'
-            ok1 = len(cp) == 1 and unparse(cp[0].value) == chname
-            ok2 = len(un) == 1 and unparse(un[0].value) == 'self._do_unknown_char(%s)' % chname
-            ctx.decide('R04b', ok1 and ok2, m, ifs[0],
+        pos_attr = unparse(wh0.test.left) if wh0 is not None and isinstance(wh0.test, ast.Compare) else 'p.pos'
+        rec = pos_attr.rsplit('.', 1)[0]
+        out_attr = rec + '.latex'
+        # no call in the fallback block receives the record `p`, so tracking p.pos / p.latex as
+        # variables is sound there (checked: the record is not passed to any call)
+        passes_rec = [c for st in els for c in ast.walk(st) if isinstance(c, ast.Call) and any(
+            isinstance(a, ast.Name) and a.id == rec for a in list(c.args) + [k.value for k in c.keywords])]
+        try:
+            cases = symex.Walker(want_exits=True, track_attrs=(pos_attr, out_attr)).run_block(els)
+        except symex.TooManyPaths as e:
+            cases = None
+            ctx.unknown('R04b', m, fors[0], str(e), construct='fallback arms')
+        if passes_rec:
+            cases = None
+            ctx.unknown('R04b', m, passes_rec[0], 'the fallback block hands the position record to a '
+                                                  'call', construct='fallback arms')
+        if cases is not None:
+            ends = [c for c in cases if c.kind in ('end', 'continue')]
+            bad_adv, bad_out, n_copy, n_unk, bad_range = [], [], 0, 0, []
+            for cs in ends:
+                pv, ov = cs.env.get(pos_attr), cs.env.get(out_attr)
+                try:
+                    d = affine.diff(pv, ast.parse(pos_attr, mode='eval').body, {}) if pv is not None else (0, {})
+                except affine.NotAffine:
+                    d = None
+                if d != (1, {}):
+                    bad_adv.append('[%s] %s becomes %s' % (' & '.join(cs.cond_src())[:80], pos_attr,
+                                                           short(pv) if pv is not None else 'unchanged'))
+                # output appended
+                app = None
+                if isinstance(ov, ast.BinOp) and isinstance(ov.op, ast.Add) and unparse(ov.left) == out_attr:
+                    app = ov.right
+                cur_ch = 's[%s]' % pos_attr
+                if app is None:
+                    bad_out.append('nothing appended to %s' % out_attr)
+                elif isinstance(app, ast.Subscript) and unparse(app.slice) == pos_attr:
+                    n_copy += 1
+                    # the copy arm must be guarded by the documented printable test
+                    tt = [_passthrough_table(t) for t, pol in cs.conds if pol]
+                    tt = [x for x in tt if x is not None]
+                    if not tt:
+                        bad_range.append('copy arm not under a recognisable range test')
+                    elif not any(x is True for x in tt):
+                        bad_range.append('the pass-through test is %s, not 32..127 or \\n\\r\\t'
+                                         % [unparse(t) for t, pol in cs.conds if pol][-1])
+                elif isinstance(app, ast.Call) and call_name(app) == '_do_unknown_char' and \
+                        len(app.args) == 1 and isinstance(app.args[0], ast.Subscript) and \
+                        unparse(app.args[0].slice) == pos_attr:
+                    n_unk += 1
+                else:
+                    bad_out.append('appends %s' % short(app))
+            ctx.decide('R04b', not bad_adv and bool(ends), m, fors[0],
+                       'every fallback path advances by exactly 1 (%d path(s))' % len(ends),
+                       'a fallback arm does not advance by exactly one character: %s' % '; '.join(bad_adv),
+                       construct='fallback arms: advance')
+            ctx.decide('R04b', not bad_out and n_copy >= 1 and n_unk >= 1, m, fors[0],
                        'printable ASCII copied; other characters replaced by the policy result only',
-                       'fallback output is %s / %s: the unknown-character arm must append exactly '
-                       'the policy\'s result (an empty or falsy result must not be replaced by the '
-                       'raw character)' % ([short(x.value) for x in cp], [short(x.value) for x in un]),
+                       'fallback output: %s (copy arms %d, policy arms %d): the unknown-character arm '
+                       'must append exactly the policy\'s result (an empty or falsy result must not '
+                       'be replaced by the raw character)' % ('; '.join(bad_out), n_copy, n_unk),
                        construct='fallback arms: output')
-            t = unparse(ifs[0].test).replace(' ', '')
-            ok3 = 'o>=32' in t and 'o<=127' in t and ("chin'\\n\\r\\t'" in t or 'chin"\\n\\r\\t"' in t)
-            ctx.decide('R04b', ok3, m, ifs[0], 'pass-through range 32..127 plus \\n \\r \\t',
-                       'the ASCII pass-through test is %s, not the documented printable range'
-                       % short(ifs[0].test), construct='fallback: pass-through range', trivial=True)
+            ctx.decide('R04b', not bad_range, m, fors[0], 'pass-through range 32..127 plus \\n \\r \\t',
+                       'the ASCII pass-through test is wrong: %s' % '; '.join(bad_range),
+                       construct='fallback: pass-through range', trivial=True)
     # while header and `continue` after skip
     wh = [w for w in iter_own(u2l) if isinstance(w, ast.While)]
     ok = len(wh) == 1 and unparse(wh[0].test).replace(' ', '') == 'p.pos<len(s)'
@@ -357,6 +440,62 @@ def _append_paths(stmts, attr):
     except TypeError:
         return False
     return all(r is None or r == 1 for r in res)
+
+
+def _passthrough_table(t):
+    """True if test t (after substitution: ord(X) comparisons and `X in '<chars>'`) accepts
+    exactly the code points 32..127 and \\n \\r \\t among a set of probe points; False if it
+    accepts another set; None if t is not such a test.  A tiny evaluator over comparison
+    syntax -- the repository's code is not executed."""
+    probes = [0, 8, 9, 10, 11, 12, 13, 14, 31, 32, 33, 65, 126, 127, 128, 160, 255, 0x2028]
+    UNK = object()
+
+    def val(e, o):
+        if isinstance(e, ast.Constant) and isinstance(e.value, int) and not isinstance(e.value, bool):
+            return e.value
+        if isinstance(e, ast.Call) and isinstance(e.func, ast.Name) and e.func.id == 'ord' and len(e.args) == 1:
+            return o
+        return UNK
+
+    def ev(e, o):
+        if isinstance(e, ast.BoolOp):
+            vs = [ev(v, o) for v in e.values]
+            if any(v is UNK for v in vs):
+                return UNK
+            return all(vs) if isinstance(e.op, ast.And) else any(vs)
+        if isinstance(e, ast.UnaryOp) and isinstance(e.op, ast.Not):
+            v = ev(e.operand, o)
+            return UNK if v is UNK else (not v)
+        if isinstance(e, ast.Compare):
+            left = e.left
+            res = True
+            for op, right in zip(e.ops, e.comparators):
+                if isinstance(op, (ast.In, ast.NotIn)):
+                    if isinstance(right, ast.Constant) and isinstance(right.value, str) and \
+                            isinstance(left, (ast.Subscript, ast.Name)):
+                        r = chr(o) in right.value
+                        r = r if isinstance(op, ast.In) else not r
+                    else:
+                        return UNK
+                else:
+                    a, b = val(left, o), val(right, o)
+                    if a is UNK or b is UNK:
+                        return UNK
+                    import operator
+                    fn = {ast.Lt: operator.lt, ast.LtE: operator.le, ast.Gt: operator.gt,
+                          ast.GtE: operator.ge, ast.Eq: operator.eq, ast.NotEq: operator.ne}.get(type(op))
+                    if fn is None:
+                        return UNK
+                    r = fn(a, b)
+                res = res and r
+                left = right
+            return res
+        return UNK
+    got = [ev(t, o) for o in probes]
+    if any(g is UNK for g in got):
+        return None
+    want = [(32 <= o <= 127) or o in (9, 10, 13) for o in probes]
+    return got == want
 
 
 def _advance_summary(f):
